@@ -2,10 +2,27 @@
 import itertools
 from vlib import common as C
 
+MANIFEST = {
+    "text": "Lean theorems about the transcription M of oscore_validate_sender_seq, oscore_roll_back_seq, the request path of "
+            "coap_oscore_decrypt_pdu and the sender sequence/save-watermark code: accept_at_most_once (every history of a recipient "
+            "context, any window size, Appendix B.1.2 on or off, jumps >= 64: accepted Partial IVs pairwise distinct), "
+            "forged_never_accepted / forgery_no_trace / forgery_invisible (a request failing authentication leaves initial_state, "
+            "last_seq and sliding_window unchanged in every state and changes no later verdict), fresh_in_window_accepted (liveness), "
+            "no_ub_shift, recv_conforms_spec + spec_accept_at_most_once (M refines the set-of-accepted-PIVs monitor S written from "
+            "RFC 8613, and S implies the property), piv_never_reused (PIVs strictly increasing over all protect / crash-restart "
+            "sequences, every ssn_freq). M is tied to the compiled code by differential runs of the real coap_oscore_decrypt_pdu / "
+            "coap_oscore_new_pdu_encrypted on generated and exhaustive short histories (I vs M vs S, state compared after every event).",
+    "note": "Trusted: Lean kernel (+ propext, Classical.choice, Quot.sound), harness/replay.c, generators and the Python monitor, the "
+            "hand transcription M (checked against the compiled code on the cases run only). The AEAD is an oracle (authentic / forged). "
+            "piv_never_reused assumes fewer than 2^63 operations (uint64 counter). Five defects of the pinned tree were fixed "
+            "(KNOWN_FINDINGS.txt); M models the fixed code.",
+    "design_ref": "DESIGN.md §4 C15, design/C15.md",
+}
 LEAN_MODULES = ["CoapVerif.Props.C15"]
 NAMESPACE = "Coap.C15"
-REQUIRED_THEOREMS = ["accept_at_most_once", "forgery_no_trace", "forgery_invisible", "fresh_in_window_accepted",
-                     "no_ub_shift", "recv_conforms_spec", "spec_accept_at_most_once", "piv_never_reused"]
+REQUIRED_THEOREMS = ["accept_at_most_once", "forged_never_accepted", "forgery_no_trace", "forgery_invisible",
+                     "fresh_in_window_accepted", "no_ub_shift", "no_ub_recv", "recv_conforms_spec",
+                     "spec_accept_at_most_once", "spec_forged_rejected", "piv_never_reused"]
 RULE = ("recipient: histories of <= 30 protected requests (authentic with/without/with wrong Echo, forged with any claimed "
         "Partial IV) delivered through coap_oscore_decrypt_pdu to a fresh recipient context, replay window 1..63 (a few 64, 100), "
         "Appendix B.1.2 on/off; PIVs chosen as small gaps, in-window lower values, both sides of the window edge, jumps >= 64, "
